@@ -82,6 +82,8 @@ _W = [
 _W += ["{ anchor(req: 1, inn: {v: 1}, lnn: [1]) { ...G } } fragment G on AnchorObj { self { ...G self { ...G } } }",
        "{ anchor(req: 1, inn: {v: 1}, lnn: [1]) { ...G } } fragment G on AnchorObj { self { self { ...G } ...G } }",
        "{ anchor(req: 1, inn: {v: 1}, lnn: [1]) { ...G } } fragment G on AnchorObj { self { ...G self { ...G x: id } x: name } }"]
+# C06-04 (new): object literal at a position of unknown type hid its variables from the later rules
+_W += ["mutation ($v0: Int = 42) { k8: anchor(req: 42, inn: {v: $v0}, lnn: [1]) { id } }"]
 # seeded C05-b / C06-b: variable positions (see gen_valid.variable_position_forms)
 _W += [gen_valid.render({"defs": defs}, "plain") for _n, defs in gen_valid.variable_position_forms(random.Random(7))]
 # seeded C05-a: a fragment's field node is the first of two merged nodes at two places
